@@ -164,6 +164,11 @@ func refKey(kind string, o Occ) string {
 	if o.C == "def-macro-arg" {
 		return kind + "/def-macro-arg"
 	}
+	if o.C == "imported-conflict" {
+		// two used packages export this name; the evaluator lets the later
+		// use-package win
+		return "misbound-ref/imported-conflict"
+	}
 	if strings.HasSuffix(o.C, "-shadowed") {
 		// the generator knows this template symbol has the spelling of a
 		// parameter/local of the macro body: whatever happened to it, the
@@ -430,23 +435,36 @@ func checkCase(c Case, ctx *vcommon.Ctx) *vcommon.Failure {
 	if len(res.Files) != len(c.Files) {
 		return vcommon.Failf("minify/file-count", "%d outputs for %d inputs", len(res.Files), len(c.Files))
 	}
-	// determinism: second run with a fresh configuration
-	res2, err2 := minifyCase(c)
-	if err2 != nil {
-		return vcommon.Failf("determinism/error", "second Minify failed: %v", err2)
-	}
-	for i := range res.Files {
-		if !bytes.Equal(res.Files[i].Output, res2.Files[i].Output) {
-			if c.Expect != "" && strings.HasPrefix(c.Expect, "determinism/") {
-				return vcommon.Failf(c.Expect, "minifying %s twice gives different output:\n%s\nvs\n%s", c.Files[i].Path, res.Files[i].Output, res2.Files[i].Output)
-			}
-			return vcommon.Failf("determinism/output"+determinismCause(c), "minifying %s twice gives different output:\n%s\nvs\n%s", c.Files[i].Path, res.Files[i].Output, res2.Files[i].Output)
-		}
+	// determinism: run again with a fresh configuration (hand-minimised
+	// determinism sessions repeat more often: a map-order dependence shows
+	// with probability < 1 per run)
+	reps := 1
+	if strings.HasPrefix(c.Expect, "determinism/") {
+		reps = 24
 	}
 	j1, _ := res.SymbolMap.JSON()
-	j2, _ := res2.SymbolMap.JSON()
-	if !bytes.Equal(j1, j2) {
-		return vcommon.Failf("determinism/map"+determinismCause(c), "minifying twice gives different symbol maps:\n%s\nvs\n%s", j1, j2)
+	for r := 0; r < reps; r++ {
+		res2, err2 := minifyCase(c)
+		if err2 != nil {
+			return vcommon.Failf("determinism/error", "second Minify failed: %v", err2)
+		}
+		for i := range res.Files {
+			if !bytes.Equal(res.Files[i].Output, res2.Files[i].Output) {
+				key := "determinism/output" + determinismCause(c)
+				if strings.HasPrefix(c.Expect, "determinism/") {
+					key = c.Expect
+				}
+				return vcommon.Failf(key, "minifying %s twice gives different output:\n%s\nvs\n%s", c.Files[i].Path, res.Files[i].Output, res2.Files[i].Output)
+			}
+		}
+		j2, _ := res2.SymbolMap.JSON()
+		if !bytes.Equal(j1, j2) {
+			key := "determinism/map" + determinismCause(c)
+			if strings.HasPrefix(c.Expect, "determinism/") {
+				key = c.Expect
+			}
+			return vcommon.Failf(key, "minifying twice gives different symbol maps:\n%s\nvs\n%s", j1, j2)
+		}
 	}
 
 	// the symbol map is a function
